@@ -144,9 +144,14 @@ func (s *Set) SPop(count int64) []string {
 // SUnion gets the union between sets.
 func (s *Set) SUnion(sets ...*Set) []string {
 	union := s.data.Keys()
+	var seen btree.Map[string, struct{}]
 	for _, set := range sets {
 		set.data.Scan(func(member string, _ struct{}) bool {
-			if _, ok := s.data.Get(member); !ok {
+			if _, ok := s.data.Get(member); ok {
+				return true
+			}
+			// a member shared by several of the other sets is reported once
+			if _, dup := seen.Set(member, struct{}{}); !dup {
 				union = append(union, member)
 			}
 			return true
